@@ -207,3 +207,52 @@ Definition enhsp_parse_plan_content (bytes : text) : list text :=
 
 (* parse_plan: the file is rewritten with the lower-cased lines *)
 Definition enhsp_plan_file (bytes : text) : text := List.concat (enhsp_parse_plan_content bytes).
+
+(* ---------- the pattern BEFORE the repair of D24 (kept only to state the finding; Proofs/C19_Original.v) ----------
+   r"\d: ([\w+\s?-]+)\n": unanchored; the class holds \s, hence LF.  The greedy run extends over every following
+   line made of class characters and backtracks to the LAST LF inside the maximal run (at least one character
+   must precede it). *)
+Definition plan_regex_src_before_D24 : string := "\d: ([\w+\s?-]+)\n".
+
+Definition in_class_orig (c : ascii) : bool :=
+  is_word c || Ascii.eqb c "+" || is_ws c || Ascii.eqb c "?" || Ascii.eqb c "-".
+
+(* the part of the run before its last LF *)
+Fixpoint upto_last_lf (run : text) : option text :=
+  match run with
+  | [] => None
+  | c :: r =>
+      match upto_last_lf r with
+      | Some a => Some (c :: a)
+      | None => if Ascii.eqb c LF then Some [] else None
+      end
+  end.
+
+(* group 1 and the length of the whole match *)
+Definition match_here_orig (t : text) : option (text * nat) :=
+  match t with
+  | d :: c1 :: c2 :: r =>
+      if is_digit d && Ascii.eqb c1 ":" && Ascii.eqb c2 SP then
+        match upto_last_lf (take_while in_class_orig r) with
+        | Some (g0 :: g) => Some (g0 :: g, 4 + List.length (g0 :: g))
+        | _ => None
+        end
+      else None
+  | _ => None
+  end.
+
+Fixpoint scan_orig (t : text) (skip : nat) : list text :=
+  match t with
+  | [] => []
+  | _ :: r =>
+      match skip with
+      | S k => scan_orig r k
+      | O =>
+          match match_here_orig t with
+          | Some (g, len) => g :: scan_orig r (len - 1)
+          | None => scan_orig r 0
+          end
+      end
+  end.
+
+Definition parse_plan_content_orig (t : text) : list text := map action_of_group (scan_orig t 0).
